@@ -291,6 +291,20 @@ func c14(r *report.Run) {
 		{"1 + a + b", func(a, b ref.Num, c bool) ref.Out {
 			return then(ar("+", one, a), func(x ref.Num) ref.Out { return ar("+", x, b) })
 		}, false},
+		{"-a * b", func(a, b ref.Num, c bool) ref.Out {
+			x := ref.Num{K: a.K, U: ref.Wrap(a.K, -a.U)}
+			if ref.KindFloat(a.K) {
+				x = ref.Num{K: a.K, F: -a.F}
+			}
+			return ar("*", x, b)
+		}, false},
+		{"-a / b", func(a, b ref.Num, c bool) ref.Out {
+			x := ref.Num{K: a.K, U: ref.Wrap(a.K, -a.U)}
+			if ref.KindFloat(a.K) {
+				x = ref.Num{K: a.K, F: -a.F}
+			}
+			return ar("/", x, b)
+		}, false},
 		{"a - 1 - b", func(a, b ref.Num, c bool) ref.Out {
 			return then(ar("-", a, one), func(x ref.Num) ref.Out { return ar("-", x, b) })
 		}, false},
